@@ -72,6 +72,9 @@ type Sched struct {
 	Ignore   map[string]bool
 	Panics   []string
 	stackBuf []byte
+	// SettleTimeout bounds the wait for quiescence (default 60s); Busy lists what was still running when it expired.
+	SettleTimeout time.Duration
+	Busy          []string
 }
 
 // New installs the gate hook and returns a scheduler. Call from the goroutine that will drive it.
@@ -95,6 +98,13 @@ func (s *Sched) Disable() {
 			a.release <- struct{}{}
 		}
 	}
+}
+
+// Finish turns the gates off, releases everything and waits until every goroutine of this execution has
+// either finished or is blocked for good, so that nothing of it runs into the gates of the next execution.
+func (s *Sched) Finish() {
+	s.Disable()
+	s.Settle()
 }
 
 // CurGID returns the id of the calling goroutine.
@@ -322,7 +332,12 @@ func (s *Sched) classify(g gor) (string, string) {
 // Settle waits until no goroutine running fs_db code is busy, and records which actors are blocked.
 func (s *Sched) Settle() error {
 	quiet := 0
-	deadline := time.Now().Add(60 * time.Second)
+	to := s.SettleTimeout
+	if to == 0 {
+		to = 60 * time.Second
+	}
+	deadline := time.Now().Add(to)
+	var busyWhy []string
 	for i := 0; ; i++ {
 		gs := s.goroutines()
 		busy := false
@@ -343,6 +358,11 @@ func (s *Sched) Settle() error {
 			switch cls {
 			case "busy":
 				busy = true
+				name := fmt.Sprint("goroutine ", g.id)
+				if a != nil {
+					name = a.Name
+				}
+				busyWhy = append(busyWhy, name+": "+why)
 			case "blocked":
 				blocked[g.id] = why
 			}
@@ -379,8 +399,10 @@ func (s *Sched) Settle() error {
 		}
 		s.mu.Unlock()
 		if time.Now().After(deadline) {
-			return fmt.Errorf("the system did not become quiet within 60s")
+			s.Busy = busyWhy
+			return fmt.Errorf("the system did not become quiet within %s", to)
 		}
+		busyWhy = busyWhy[:0]
 		if i < 20 {
 			runtime.Gosched()
 			time.Sleep(20 * time.Microsecond)
